@@ -875,9 +875,11 @@ theorem C13_gen_method_bodies :
   ("HostNode.receive_frame", ["super().receive_frame(frame, from_network_interface)", "dst_port = None", "if frame.tcp { dst_port = frame.tcp.dst_port } else { if frame.udp { dst_port = frame.udp.dst_port } }", "can_accept_nmap = False", "if self.software_manager.software.get('nmap') { if self.software_manager.software['nmap'].operating_state == ApplicationOperatingState.RUNNING { can_accept_nmap = True } }", "accept_nmap = can_accept_nmap and frame.payload.__class__.__name__ == 'PortScanPayload'", "accept_frame = False", "if frame.icmp or dst_port in self.software_manager.get_open_ports() or accept_nmap { accept_frame = True }", "if accept_frame { self.session_manager.receive_frame(frame, from_network_interface) } else { pass }"])] := by
   rfl
 
-/-- well-known ports the end-to-end theorems use, and the default capacity of `Conn` -/
+/-- well-known ports the end-to-end theorems use, the default capacity of `Conn`, and: no class overrides the connection
+bookkeeping of `IOSoftware` (so `Conn` is the bookkeeping of every shipped class) -/
 theorem C13_gen_recv_constants :
     Gen.SoftwareRecv.portDNS = 53 ∧ Gen.SoftwareRecv.portNTP = 123 ∧
-    Gen.SoftwareRecv.maxSessionsDefault = ({} : Conn).maxSessions := by decide
+    Gen.SoftwareRecv.maxSessionsDefault = ({} : Conn).maxSessions ∧
+    Gen.SoftwareRecv.connectionOverrides = [] := by decide
 
 end Primaite.C13
